@@ -126,18 +126,32 @@ static size_t ref_decode_path(const ref_cfg_t *cf, const unsigned char *map, con
         int emit = 1;
         if (b == '%') {
             size_t after = n - i - 1;                /* bytes that follow the percent sign */
-            int invalid = 0, can_process = 0, is_u = 0;
+            /* classify the construct first */
+            int is_u = 0, well_formed = 0, can_process = 0;
             if (after < 2) {
                 /* too short to be any escape (tests: "/%a", "/%H", "/%"): invalid, nothing to decode.  A "%u"
                  * that ends the string is therefore not looked at as a %u escape.  CHOICE(2). */
-                invalid = 1;
             } else if (cf->u_encoding_decode && (in[i + 1] == 'u' || in[i + 1] == 'U')) {
                 is_u = 1;
-                rf_react(fx, cf->u_encoding_unwanted);
-                if (after >= 5 && rf_ishex(in[i + 2]) && rf_ishex(in[i + 3]) && rf_ishex(in[i + 4]) && rf_ishex(in[i + 5])) {
+                can_process = (after >= 5);          /* four bytes are there; they may still not be hex digits */
+                well_formed = can_process && rf_ishex(in[i + 2]) && rf_ishex(in[i + 3]) && rf_ishex(in[i + 4]) && rf_ishex(in[i + 5]);
+            } else {
+                can_process = 1;
+                well_formed = rf_ishex(in[i + 1]) && rf_ishex(in[i + 2]);
+            }
+            if (is_u) rf_react(fx, cf->u_encoding_unwanted);
+            if (!well_formed) {
+                fx->flags |= RF_PATH_INVALID_ENCODING;
+                rf_react(fx, cf->url_encoding_invalid_unwanted);
+            }
+            if (well_formed || (cf->url_encoding_invalid_handling == RF_PROCESS_INVALID && can_process)) {
+                /* decode.  For an invalid escape ("Decode invalid URL encodings") the lenient digit formula applies
+                 * and the result is plain data: it is not examined for NUL/separator (htp_util.c says so explicitly
+                 * for separators).  CHOICE(3). */
+                if (is_u) {
                     b = rf_u_path(cf, map, in + i + 2, fx);
                     i += 6;
-                    if (b == 0) {
+                    if (well_formed && b == 0) {
                         fx->flags |= RF_PATH_ENCODED_NUL;
                         rf_react(fx, cf->nul_encoded_unwanted);
 #ifndef KNOWN_F_C12_U_NUL_NOTERM
@@ -146,42 +160,26 @@ static size_t ref_decode_path(const ref_cfg_t *cf, const unsigned char *map, con
 #endif
                     }
                 } else {
-                    invalid = 1;
-                    can_process = (after >= 5);      /* four bytes are there, they are just not hex digits */
+                    unsigned char v = rf_hexbyte(in + i + 1);
+                    if (well_formed && v == 0) {
+                        fx->flags |= RF_PATH_ENCODED_NUL;
+                        rf_react(fx, cf->nul_encoded_unwanted);
+                        if (cf->nul_encoded_terminates) return o;
+                    }
+                    if (well_formed && (v == '/' || (cf->backslash_convert_slashes && v == '\\'))) {
+                        fx->flags |= RF_PATH_ENCODED_SEPARATOR;
+                        rf_react(fx, cf->path_separators_encoded_unwanted);
+                        if (cf->path_separators_decode) { b = v; i += 3; }
+                        else { i += 1; }             /* "/one%2ftwo" stays as it is: the '%' is an ordinary byte */
+                    } else {
+                        b = v;
+                        i += 3;
+                    }
                 }
-            } else if (rf_ishex(in[i + 1]) && rf_ishex(in[i + 2])) {
-                unsigned char v = rf_hexbyte(in + i + 1);
-                if (v == 0) {
-                    fx->flags |= RF_PATH_ENCODED_NUL;
-                    rf_react(fx, cf->nul_encoded_unwanted);
-                    if (cf->nul_encoded_terminates) return o;
-                }
-                if (v == '/' || (cf->backslash_convert_slashes && v == '\\')) {
-                    fx->flags |= RF_PATH_ENCODED_SEPARATOR;
-                    rf_react(fx, cf->path_separators_encoded_unwanted);
-                    if (cf->path_separators_decode) { b = v; i += 3; }
-                    else { i += 1; }                 /* "/one%2ftwo" stays as it is: the '%' is an ordinary byte */
-                } else {
-                    b = v;
-                    i += 3;
-                }
+            } else if (cf->url_encoding_invalid_handling == RF_REMOVE_PERCENT) {
+                i += 1; emit = 0;                    /* the percent sign disappears, what follows is ordinary data */
             } else {
-                invalid = 1;
-                can_process = 1;
-            }
-            if (invalid) {
-                fx->flags |= RF_PATH_INVALID_ENCODING;
-                rf_react(fx, cf->url_encoding_invalid_unwanted);
-                if (cf->url_encoding_invalid_handling == RF_REMOVE_PERCENT) {
-                    i += 1; emit = 0;                /* the percent sign disappears, what follows is ordinary data */
-                } else if (cf->url_encoding_invalid_handling == RF_PROCESS_INVALID && can_process) {
-                    /* "Decode invalid URL encodings": with the lenient digit formula; the result is data, it is
-                     * not examined for NUL/separator (htp_util.c says so explicitly for separators).  CHOICE(3). */
-                    if (is_u) { b = rf_u_path(cf, map, in + i + 2, fx); i += 6; }
-                    else { b = rf_hexbyte(in + i + 1); i += 3; }
-                } else {
-                    i += 1;                          /* the percent sign stays */
-                }
+                i += 1;                              /* the percent sign stays */
             }
         } else {
             if (b == 0) {
@@ -278,8 +276,13 @@ static size_t ref_utf8_path(const ref_cfg_t *cf, const unsigned char *map, int c
  *    "/" is all that is left of the input buffer, it is dropped instead of being moved to the
  *    output (tests: "one/." -> "one", "one/.." -> "", "one/../" -> "").
  * ------------------------------------------------------------------------------------------- */
+/* scratch capacity: the harness bound N when there is one (keeps the verifier's arrays small) */
 #ifndef RF_NMAX
+#ifdef N
+#define RF_NMAX N
+#else
 #define RF_NMAX 64
+#endif
 #endif
 static size_t ref_remove_dot_segments(const unsigned char *in, size_t n, unsigned char *out) {
     unsigned char w[RF_NMAX + 1];
